@@ -2,13 +2,13 @@ from props import KERNEL, HARNESS, TRANSLATOR, CORR
 
 CONFIG = {
     "props_file": "props/C19.v",
-    "coq_targets": ["props/C19.vo", "model/BclFmtCorr.vo", "proofs/BclFmtGenProofs.vo", "proofs/BclPanicSitesProofs.vo"],
+    "coq_targets": ["props/C19.vo", "model/BclFmtCorr.vo", "proofs/BclFmtGenProofs.vo", "proofs/BclPanicSitesProofs.vo", "proofs/BclFmtGenAllProofs.vo"],
     "runner": "run_bcl",
     "gens": ["gen_bcl"],
     "level": "proof",
     "trusted_base": [
         KERNEL,
-        TRANSLATOR + " (TokensGen.v, UnicodeGen.v as for C11: token enumeration, operators, switch arms, panic( sites incl. fmt.go diffFile, unicode tables; BclFmtGen.v: the conditions of FmtDiffs (merge <, extend >, first idx == 0, leading > 0, gap > and != newline, suppression !=), its FmtDiff literals, rangeLines' slice expression, singleLineTokens / multiLineToken line ranges as lib/GoExpr terms, evaluated against merge_diffs / diffs_loop / range_lines / single_line / multi_line on probe grids in proofs/BclFmtGenProofs.v; BclIndexGen.v as for C11)",
+        TRANSLATOR + " (TokensGen.v, UnicodeGen.v as for C11: token enumeration, operators, switch arms, panic( sites incl. fmt.go diffFile, unicode tables; BclFmtGen.v: the conditions of FmtDiffs (merge <, extend >, first idx == 0, leading > 0, gap > and != newline, suppression !=), its FmtDiff literals, rangeLines' slice expression, singleLineTokens / multiLineToken line ranges as lib/GoExpr terms, evaluated against merge_diffs / diffs_loop / range_lines / single_line / multi_line on probe grids in proofs/BclFmtGenProofs.v and for ALL inputs in proofs/BclFmtGenAllProofs.v (fmt_diffs_of_all: FmtDiffs' two loops and rangeLines run on the table's expressions = the model's fmt_diffs_of); BclIndexGen.v as for C11)",
         CORR, HARNESS,
         "modelled, not verified: strings.Split/Join, the Go slice expression lines[from:to] (bounds as in the language spec, cap = len for the result of strings.Split), string comparison, []rune conversion and UTF-8 encoding of the formatter's text; the application of TextEdits by an LSP client is modelled as replacement of whole lines (character 0 ranges), genlsp/format.go is modelled (lsp_format: TextEdit{(uint32(From),0),(uint32(To),0),NewText}) and compared in Coq on every case; the editor is modelled twice: lsp_apply (character-0 edits by line offsets, a position past the last line being the end of the document) and the general protocol client of model/BclLsp.v (clamp_pos: the LSP 3.17 rule for positions beyond the document / the line; pos_offset: byte offset of any (line, UTF-16 character); client_apply); the server does no clamping of its own (genlsp/format.go), real clients are not in the loop",
         "add-only hooks: internal/bcl/internal/parser/verif_export.go, internal/bcl/genlsp/verif_export.go, internal/bcl/verifbcl, lib/verifshim/bcl (build tag verif)",
